@@ -570,6 +570,93 @@ func TestVerifRequestLoop(t *testing.T) {
 		}
 	}
 
+	// ---- W7 (real time: the reader is held inside the connection's fail-once section): the connection is reset after a
+	// request was written and before its sender armed the read deadline; the sender's deadline operation then fails on the
+	// socket the reader has just closed. That is a connection-level failure like any other: the request is retried
+	// elsewhere, the application sees nothing.
+	for rep2 := 0; rep2 < 2; rep2++ {
+		func() {
+			name := fmt.Sprintf("W7/connection-reset-between-write-and-arming-the-read-deadline/%d", rep2)
+			e := newRLEnv(1, 2)
+			regs := e.cl.OnlineRegions("t")
+			host := regs[0].Host
+			warm := e.goGet("a")
+			for i := 0; i < 500 && !rlReturned(e, warm); i++ {
+				time.Sleep(10 * time.Millisecond)
+			}
+			var swallowed atomic.Bool
+			e.cl.Lock()
+			e.cl.Rules = append(e.cl.Rules, func(c *verifsim.Cluster, rs *verifsim.RS, sc *verifsim.ServerConn, req *verifsim.Request, name []byte) *verifsim.Directive {
+				if rs.Addr == host && !verifsim.IsProbe(req) && swallowed.CompareAndSwap(false, true) {
+					return &verifsim.Directive{Silent: true} // the answer to the request in question never comes
+				}
+				return nil
+			})
+			e.cl.Unlock()
+			senderParked, senderGo := make(chan struct{}), make(chan struct{})
+			readerParked, readerGo := make(chan struct{}), make(chan struct{})
+			var s1, r1 atomic.Bool
+			simSetRegionHook(func(point string, c any, arg any) {
+				rc, ok := c.(hrpc.RegionClient)
+				if !ok || rc.Addr() != host {
+					return
+				}
+				switch point {
+				case "send.written":
+					if s1.CompareAndSwap(false, true) {
+						close(senderParked)
+						<-senderGo
+					}
+				case "fail.connClosed":
+					if s1.Load() && r1.CompareAndSwap(false, true) {
+						close(readerParked)
+						select {
+						case <-readerGo:
+						case <-time.After(5 * time.Second):
+						}
+					}
+				}
+			})
+			cc := e.goGet("a")
+			ok := true
+			select {
+			case <-senderParked:
+			case <-time.After(5 * time.Second):
+				ok = false
+			}
+			if ok {
+				e.cl.ResetConns(host)
+				select {
+				case <-readerParked:
+				case <-time.After(5 * time.Second):
+					ok = false
+				}
+			}
+			close(senderGo)
+			time.Sleep(300 * time.Millisecond)
+			close(readerGo)
+			simSetRegionHook(nil)
+			if !ok {
+				rep.bad("harness:w7", "%s: the schedule could not be set up", name)
+			}
+			for i := 0; i < 1000 && !rlReturned(e, cc); i++ {
+				time.Sleep(10 * time.Millisecond)
+			}
+			e.mu.Lock()
+			switch {
+			case !cc.returned:
+				rep.bad("request-stranded", "%s: get %s has not returned 10 s after the connection was reset", name, cc.id)
+			case cc.err != nil:
+				rep.bad("request-failed-by-a-connection-fault", "%s: get %s was handed %v (a connection reset is retried elsewhere, it is not the application's business)", name, cc.id, cc.err)
+			}
+			e.mu.Unlock()
+			e.c.Close()
+			time.Sleep(100 * time.Millisecond)
+			rep.Scenarios++
+			rep.Distinct++
+		}()
+	}
+
 	// ---- W4: hbase:meta lags behind a move: the old server answers "not serving" (to requests and to the probe) while the region
 	// is already served elsewhere; meta catches up a little later. The establisher must look the region up again.
 	for _, late := range []time.Duration{50 * time.Millisecond, 3 * time.Second} {
@@ -755,6 +842,12 @@ func rlApplyEvent(e *rlEnv, sr *rand.Rand, servers []string) string {
 		what = "acceptdrop"
 	}
 	return what
+}
+
+func rlReturned(e *rlEnv, cc *rlCall) bool {
+	e.mu.Lock()
+	defer e.mu.Unlock()
+	return cc.returned
 }
 
 func indexOf(xs []string, x string) int {
